@@ -68,6 +68,8 @@ type c10WS struct {
 	LockIDs []string          // v2: remote commits pinned at the root
 	// PlantDirs: directories of the local modules that carry the planted problem
 	PlantDirs []string
+	// DupImporter: directory of the local module with a file importing the duplicated path ("" = nobody)
+	DupImporter, DupImporterKind string
 }
 
 func (f *c10File) text(msgOf map[string][2]string) string {
@@ -210,6 +212,20 @@ func c10Gen(c *core.C, errorCase bool) *c10WS {
 			ws.PlantDirs = []string{a.Dir, b.Dir}
 			a.Files = append(a.Files, &c10File{Path: "dup/dup.proto", Pkg: "dup", Msg: "Dup", Marker: "one"})
 			b.Files = append(b.Files, &c10File{Path: "dup/dup.proto", Pkg: "dup", Msg: "Dup", Marker: "two"})
+			// who imports the ambiguous path: nobody, a file of the module that has its own copy (the other
+			// owner is not otherwise one of its dependencies: a is the first local), or a third module
+			switch (c.Idx / 3) % 3 {
+			case 1:
+				a.Files[0].Imports = dedup(append(a.Files[0].Imports, "dup/dup.proto"))
+				ws.DupImporter, ws.DupImporterKind = a.Dir, "owner"
+			case 2:
+				if len(ws.Locals) > 2 {
+					m := ws.Locals[1+r.IntN(len(ws.Locals)-2)]
+					m.Files[len(m.Files)-1].Imports = dedup(append(m.Files[len(m.Files)-1].Imports, "dup/dup.proto"))
+					ws.DupImporter, ws.DupImporterKind = m.Dir, "third"
+					ws.PlantDirs = append(ws.PlantDirs, m.Dir)
+				}
+			}
 		case "missing":
 			m := ws.Locals[r.IntN(len(ws.Locals))]
 			f := m.Files[r.IntN(len(m.Files))]
@@ -676,16 +692,21 @@ func c10Run(c *core.C, idx int) {
 	}
 	if len(ws.Remotes) == 0 && errorCase {
 		env := run.BufEnv(filepath.Join(c.Tmp, "home"), nil)
-		args := []string{"build", "-o", "-#format=binpb"}
+		cmds := [][]string{{"build", "-o", "-#format=binpb"}}
 		if ws.Plant == "cycle" {
-			args = []string{"dep", "graph"}
+			cmds = [][]string{{"dep", "graph"}}
 		}
-		o := run.Buf(dir, env, nil, args...)
-		c.Eval(1)
-		if o.Code == 0 {
-			c.Violation("ambiguity-not-an-error", keyBase+" cmd=cli", fmt.Sprintf("buf %s succeeded on a workspace with a planted %s", strings.Join(args, " "), ws.Plant), nil)
+		if ws.Plant == "duplicate" && ws.DupImporter != "" {
+			cmds = append(cmds, []string{"dep", "graph"}, []string{"ls-files", "--include-imports"})
 		}
-		c.Count("cli_error_runs", 1)
+		for _, args := range cmds {
+			o := run.Buf(dir, env, nil, args...)
+			c.Eval(1)
+			if o.Code == 0 {
+				c.Violation("ambiguity-not-an-error", keyBase+" cmd=cli:"+args[0]+" importer="+ws.DupImporterKind, fmt.Sprintf("buf %s succeeded on a workspace with a planted %s", strings.Join(args, " "), ws.Plant), nil)
+			}
+			c.Count("cli_error_runs", 1)
+		}
 	}
 	if idx < 2 || (errorCase && idx < nOK+3) {
 		var mods []string
@@ -718,13 +739,38 @@ func c10ExpectError(c *core.C, ws *c10WS, w bufworkspace.Workspace, err error, k
 	if err != nil {
 		errs = append(errs, err)
 	} else {
-		for _, m := range w.Modules() {
-			if _, derr := m.ModuleDeps(); derr != nil {
-				errs = append(errs, derr)
+		// An operation that has to resolve the ambiguous import reports it itself: the dependencies of the
+		// importing module, the module DAG (it contains that module) — not only the build.
+		demand := func(op string, derr error) {
+			if ws.Plant != "duplicate" || ws.DupImporter == "" {
+				return
+			}
+			c.Count("duplicate_resolving_operations", 1)
+			var de *bufmodule.DuplicateProtoPathError
+			if derr == nil {
+				c.Violation("ambiguity-resolved-arbitrarily", key+" op="+op+" importer="+ws.DupImporterKind, fmt.Sprintf("%s succeeded although a file of %s imports dup/dup.proto, which two modules provide", op, ws.DupImporter), map[string]any{"ws": ws})
+			} else if !errors.As(derr, &de) {
+				c.Violation("wrong-error-type", key+" op="+op, fmt.Sprintf("%s: planted duplicate produced an error of another kind: %v", op, derr), nil)
 			}
 		}
-		if _, derr := bufmodule.ModuleSetToDAG(w); derr != nil {
+		importerTargeted := false
+		for _, m := range w.Modules() {
+			_, derr := m.ModuleDeps()
+			if derr != nil {
+				errs = append(errs, derr)
+			}
+			if m.IsLocal() && ws.DupImporter != "" && c10KeyOfModule(m) == c10LocalKey(ws, ws.DupImporter) {
+				demand("ModuleDeps", derr)
+				importerTargeted = m.IsTarget()
+			}
+		}
+		_, derr := bufmodule.ModuleSetToDAG(w)
+		if derr != nil {
 			errs = append(errs, derr)
+		}
+		if importerTargeted {
+			// the DAG is computed from the target modules
+			demand("ModuleSetToDAG", derr)
 		}
 		if _, berr := bufimage.BuildImage(ctx, c09Logger, bufmodule.ModuleSetToModuleReadBucketWithOnlyProtoFiles(w)); berr != nil {
 			errs = append(errs, berr)
@@ -1049,6 +1095,16 @@ func init() {
 			return 240 + 90
 		},
 		Run:      c10Run,
-		Required: []string{"module_deps_checked", "module_deps_nonempty", "indirect_deps_seen", "remote_commit_choices_checked", "image_files_checked", "typed_errors_matched", "lsfiles_vs_build", "dep_graphs_checked", "file_ref_targets_checked"},
+		Required: []string{"module_deps_checked", "module_deps_nonempty", "indirect_deps_seen", "remote_commit_choices_checked", "image_files_checked", "typed_errors_matched", "duplicate_resolving_operations", "lsfiles_vs_build", "dep_graphs_checked", "file_ref_targets_checked"},
 	})
+}
+
+// c10LocalKey is the module key (name, or bucket id = directory) of the local module in dir.
+func c10LocalKey(ws *c10WS, dir string) string {
+	for _, m := range ws.Locals {
+		if m.Dir == dir {
+			return m.key()
+		}
+	}
+	return dir
 }
